@@ -1,6 +1,6 @@
 """C18 — generated XML, XHTML and SVG are well-formed and carry the data unchanged (util/XmlWrite.py ...).
-Kernel under contract: the element-stack discipline of XmlStream (startElement / endElement / characters /
-_closeElemIfOpen / __exit__): every start is matched by an end in LIFO order, a mismatched end is refused, leaving the
+Kernel under contract: the element-stack discipline of XmlStream (startElement / endElement / characters / literal /
+comment / pI / xmlSpacePreserve / _indent / _canIndent / _flipIndent / _closeElemIfOpen / __exit__): every start is matched by an end in LIFO order, a mismatched end is refused, leaving the
 context manager closes everything.  _encode is decided by complete enumeration of all Unicode code points against an
 independent XML 1.0 character / reference validator (a finite domain, enumerated completely).  Whole documents from the
 index / HTML / SVG generators are covered by the bounded stand-in."""
@@ -12,15 +12,21 @@ OUT = KRec('TextIO', writes=Int)
 XS = KRec('XmlStream', _file=OUT, _fileClose=False, _enc='utf-8', _elemStk=KView(Int), _inElem=Bool, _canIndentStk=KView(Bool))
 ASSUMPTIONS = ['element names are compared for equality only (modelled as integer ids); startElement is verified for an empty attribute dict '
                '(attribute values go through _encode, decided by the code-point enumeration)',
-               'XmlStream._indent / _canIndent write only white space (assumed contract)']
+               'the output file is abstracted to its number of write calls: WHAT characters/literal/comment/pI/_indent write is not under contract '
+               '(whole documents: bounded stand-in); text repeated a symbolic number of times (INDENT_STR * depth) is an arbitrary string of the right length']
 
 
 def register(reg):
-    reg.add(Contract(XW, 'XmlStream._indent', {'self': XS, 'offset': Int}, modifies=['self._file.writes'], trusted=True,
-                     ensures=['self._file.writes >= old(self._file.writes)'],
-                     note='writes a newline and indentation only'), verify=False)
+    reg.add(Contract(XW, 'XmlStream._canIndent', {'self': XS}, returns=Bool,
+                     ensures=['result == forall(0, len(self._canIndentStk), lambda i: self._canIndentStk[i])'],
+                     loops=[Loop('for b in self._canIndentStk', index='k', invariants=['forall(0, k, lambda i: self._canIndentStk[i])'])],
+                     canaries=['result', 'not result'], crosscheck=False))
+    reg.add(Contract(XW, 'XmlStream._indent', {'self': XS, 'offset': Int}, modifies=['self._file.writes'],
+                     ensures=['self._file.writes >= old(self._file.writes)'], crosscheck=False))
     reg.add(Contract(XW, 'XmlStream._flipIndent', {'self': XS, 'theBool': Bool}, requires=['len(self._canIndentStk) > 0'],
-                     modifies=['self._canIndentStk'], ensures=['len(self._canIndentStk) == len(old(self._canIndentStk))'], crosscheck=False))
+                     modifies=['self._canIndentStk'], ensures=['len(self._canIndentStk) == len(old(self._canIndentStk))',
+                              'self._canIndentStk[len(self._canIndentStk) - 1] == theBool',
+                              'forall(0, len(self._canIndentStk) - 1, lambda i: self._canIndentStk[i] == old(self._canIndentStk)[i])'], crosscheck=False))
     reg.add(Contract(XW, 'XmlStream._closeElemIfOpen', {'self': XS}, modifies=['self._inElem', 'self._file.writes'],
                      ensures=['not self._inElem', 'self._file.writes == old(self._file.writes) + (1 if old(self._inElem) else 0)'],
                      canaries=['self._file.writes == old(self._file.writes)'], crosscheck=False))
@@ -30,6 +36,27 @@ def register(reg):
                      ensures=[STK, 'self._inElem', 'len(self._elemStk) == len(old(self._elemStk)) + 1', 'self._elemStk[len(self._elemStk) - 1] == name',
                               'forall(0, len(old(self._elemStk)), lambda i: self._elemStk[i] == old(self._elemStk)[i])'],
                      canaries=['len(self._elemStk) == 1'], crosscheck=False))
+    # content between the tags: text, literal text, comments, processing instructions and xml:space leave the element stack
+    # exactly as it was (so every start is still matched by its end), close the pending start tag first, and write something
+    reg.add(Contract(XW, 'XmlStream._encode', {'self': XS, 'theStr': Str}, returns=Str, trusted=True,
+                     note='_encode(text): what it returns is decided by the complete code-point enumeration (stand-in 1), not here'), verify=False)
+    for fname, arg in (('characters', 'theString'), ('literal', 'theString'), ('pI', 'theS')):
+        reg.add(Contract(XW, 'XmlStream.' + fname, {'self': XS, arg: Str}, requires=[STK, 'len(self._elemStk) > 0'],
+                         modifies=['self._inElem', 'self._file.writes', 'self._canIndentStk'],
+                         ensures=[STK, 'not self._inElem', 'self._file.writes > old(self._file.writes)',
+                                  # no further indentation inside this element (mixed content), enclosing elements unaffected
+                                  'not self._canIndentStk[len(self._canIndentStk) - 1]',
+                                  'forall(0, len(self._canIndentStk) - 1, lambda i: self._canIndentStk[i] == old(self._canIndentStk)[i])'],
+                         canaries=['self._inElem'], crosscheck=False))
+    reg.add(Contract(XW, 'XmlStream.comment', {'self': XS, 'theS': Str}, requires=[STK],
+                     modifies=['self._inElem', 'self._file.writes'],
+                     ensures=[STK, 'not self._inElem', 'self._file.writes > old(self._file.writes)'],
+                     canaries=['self._inElem'], crosscheck=False))
+    reg.add(Contract(XW, 'XmlStream.xmlSpacePreserve', {'self': XS}, requires=[STK, 'len(self._elemStk) > 0'],
+                     modifies=['self._canIndentStk'],
+                     ensures=[STK, 'not self._canIndentStk[len(self._canIndentStk) - 1]',
+                              'forall(0, len(self._canIndentStk) - 1, lambda i: self._canIndentStk[i] == old(self._canIndentStk)[i])'],
+                     canaries=['self._canIndentStk[len(self._canIndentStk) - 1]'], crosscheck=False))
     reg.add(Contract(XW, 'XmlStream.endElement', {'self': XS, 'name': Int}, requires=[STK],
                      modifies=['self._inElem', 'self._file.writes', 'self._elemStk', 'self._canIndentStk'],
                      # a close that does not match the innermost open element is refused
